@@ -110,7 +110,7 @@ def run(tier, seed):
         # listed before the productive ones) and a scalar start symbol: its gradients are taken per interpreter level too
         dead = i % 5 == 2
         a = AG.gen_fx_recursive(rng, linear=(i % 2 == 0 and not dead), max_q=0.85, patterned=('tri' if i % 3 == 1 and not dead else False),
-                                dead=dead, scalar_start=dead)
+                                dead=dead, scalar_start=dead, mutual=(i % 5 == 4))
         jobs.append({'ag': a, 'idx': nn + i, 'tier': tier, 'mode': 'fx', 'lg': dead})
     with Scratch() as work:
         res = run_workers(work, jobs, o)
